@@ -274,7 +274,7 @@ def assemble(vacuity=False, only_files=None, extra_theorems=True, extracted=None
     pending_from = None  # (impl header info) for FromSpecImpl generation
     n = len(lines)
 
-    def emit_fn(key, block_lines, in_trait_impl_from, dup=False, trait_path=None, assoc_names=()):
+    def emit_fn(key, block_lines, in_trait_impl_from, dup=False, trait_path=None, assoc_names=(), free_self=None):
         """block_lines: the formatted text of one fn (signature + body).
         dup=True (vacuity twin only): emit a renamed copy `<name>__vac` whose contract additionally ensures `false`;
         the copy must FAIL verification.  Callers keep calling the original, so a twin never contaminates its callers."""
@@ -288,6 +288,15 @@ def assemble(vacuity=False, only_files=None, extra_theorems=True, extracted=None
                 text = re.sub(r"^(\s*)fn ", r"\1pub fn ", text, count=1)
                 for an in assoc_names:
                     text = re.sub(r"\bSelf::%s\b" % an, "<Self as %s>::%s" % (trait_path, an), text)
+            if free_self:
+                gname, gbound = free_self
+                text = re.sub(r"\bSelf::(\w+)", lambda mm: "<%s as %s>::%s" % (gname, trait_path, mm.group(1)) if mm.group(1)[0].islower() else mm.group(0), text)
+                text = re.sub(r"\bSelf\b", gname, text)
+                mfn = re.search(r"\bfn\s+\w+__vac\s*(<)?", text)
+                if mfn.group(1):
+                    text = text[:mfn.end()] + gbound + ", " + text[mfn.end():]
+                else:
+                    text = text[:mfn.end()] + "<" + gbound + ">" + text[mfn.end():]
         # return type wrapper
         k = text.find("-> __R<")
         ret_named = False
@@ -421,6 +430,9 @@ def assemble(vacuity=False, only_files=None, extra_theorems=True, extracted=None
                 A.add("use crate::serde::de::Error as _;")
                 if cur_file == "keypair":
                     A.add("use crate::serde::{Deserialize as _, Serialize as _};   // in scope inside the serde impls of the source")
+                if cur_file == "group_ec":
+                    # the file's own `use elliptic_curve::{..}` lines (explicit imports shadow the crate's PublicKey / SecretKey of `use super::*`)
+                    A.add("use crate::elliptic_curve::{self, ExpandMsgXmd, Field, FieldBytesSize, Group, GroupDigest, ModulusSize, ProjectivePoint, PublicKey, Scalar, SecretKey, ToEncodedPoint};")
             i += 1
             continue
         if skip_file:
@@ -509,7 +521,7 @@ def assemble(vacuity=False, only_files=None, extra_theorems=True, extracted=None
                                 rest = rest[q + 1:].strip(); break
                     mh = rest
                 if mh:
-                    k2 = mh.replace(" ", "")
+                    k2 = mh.replace(" ", "").rstrip(",")
                     if k2 in impl_extra:
                         A.add(impl_extra[k2].rstrip("\n"))
                         impl_extra.pop(k2)
@@ -520,6 +532,7 @@ def assemble(vacuity=False, only_files=None, extra_theorems=True, extracted=None
                 mt = re.match(r"^impl\s*(<.*?>)?\s*(.+?) for (.+?)\s*\{$", re.sub(r"\s+", " ", hdr_text).strip())
                 trait_path = mt.group(2) if mt and " for " in re.sub(r"\s+", " ", hdr_text) else None
                 assoc_names = []
+                impl_fn_keys = []
                 while i < n and lines[i] != "}":
                     s2 = lines[i].strip()
                     if s2.startswith("//@item"):
@@ -529,6 +542,7 @@ def assemble(vacuity=False, only_files=None, extra_theorems=True, extracted=None
                         base_depth[0] = 0
                         buf, i = collect_block(i)
                         emit_fn(kv2["key"], buf, is_from)
+                        impl_fn_keys.append(kv2["key"])
                         if is_from:
                             from_fn = (kv2["key"], buf)
                         if vacuity:
@@ -541,10 +555,60 @@ def assemble(vacuity=False, only_files=None, extra_theorems=True, extracted=None
                         if ma:
                             assoc_names.append(ma.group(1))
                         A.add(lines[i]); i += 1
+                r10 = trait_path == "KeGroup" and not any(k.endswith("::derive_auth_keypair") for k in impl_fn_keys)
+                if r10:
+                    # rule R10: the impl inherits the trait's default method, which is extracted once as `derive_auth_keypair_default`.
+                    # Inside the impl the delegation cannot be verified (Verus rejects the trait-impl cycle): external_body here, and the
+                    # SAME body is verified against the trait-level clause as a free function right after the impl.
+                    A.add("    #[verifier::external_body] /*R10: default method of the trait, not overridden by this impl; verified below as derive_auth_keypair__inherited*/")
+                    A.add("    fn derive_auth_keypair<CS: voprf::CipherSuite>(seed: GenericArray<u8, Self::SkLen>) -> (r: Result<Self::Sk, InternalError>) { derive_auth_keypair_default::<Self, CS>(seed) }")
                 A.add("}")
                 i += 1
                 impl_stack.pop()
-                if dups and mt:
+                blanket0 = re.match(r"^(\w+) where (.+?),?$", mt.group(3).strip()) if mt else None
+                if r10 and blanket0:
+                    gname, gbound = blanket0.group(1), blanket0.group(2)
+                    dkey = impl_fn_keys[0].rsplit("::", 1)[0] + "::derive_auth_keypair"
+                    c = fns.get(dkey)
+                    for dupflag in ([False, True] if vacuity else [False]):
+                        nm = "derive_auth_keypair__inherited" + ("__vac" if dupflag else "")
+                        A.add(f"// kind=fn key={dkey} (R10 delegation, checked copy)")
+                        A.add(f"pub fn {nm}<{gbound}, CS: voprf::CipherSuite>(seed: GenericArray<u8, <{gname} as KeGroup>::SkLen>) -> (r: Result<<{gname} as KeGroup>::Sk, InternalError>)")
+                        A.add("    ensures")
+                        ln = A.lineno()
+                        A.add(f"        r == <{gname} as KeGroup>::derive_spec::<CS>(seed@),")
+                        A.clause_at[ln] = (dkey, "trait:r == Self::derive_spec::<CS>(seed@)" + ("__dup" if dupflag else ""), "ensures")
+                        if not dupflag:
+                            A.clauses[(dkey, "trait:r == Self::derive_spec::<CS>(seed@)")] = "r == Self::derive_spec::<CS>(seed@)"
+                        if c is not None:
+                            used_fn_contracts.add(dkey)
+                            if not dupflag:
+                                A.contracted.append(dkey)
+                            for lab, txt in c.ensures:
+                                ln = A.lineno()
+                                A.add("        " + txt.replace("\n", "\n        ") + ",")
+                                for q in range(ln, A.lineno()):
+                                    A.clause_at[q] = (dkey, lab + ("__dup" if dupflag else ""), "ensures")
+                                if not dupflag:
+                                    A.clauses[(dkey, lab)] = txt
+                        if dupflag:
+                            ln = A.lineno()
+                            A.add("        false,")
+                            A.clause_at[ln] = (dkey, "__vacuity", "ensures")
+                            A.clauses[(dkey, "__vacuity")] = "false"
+                        A.add("{")
+                        if c is not None and c.proof.strip():
+                            A.add("    proof {"); A.add(c.proof.rstrip("\n")); A.add("    }")
+                        A.add(f"    derive_auth_keypair_default::<{gname}, CS>(seed)")
+                        A.add("}")
+                blanket = re.match(r"^(\w+) where (.+?),?$", mt.group(3).strip()) if mt else None
+                if dups and mt and blanket:
+                    # blanket impl `impl<G> Trait for G where G: B`: an inherent impl on a type parameter does not exist, the twins are free functions generic in G
+                    impl_stack.append((hdr_text, False))
+                    for dk, dbuf in dups:
+                        emit_fn(dk, dbuf, False, dup=True, trait_path=trait_path, assoc_names=assoc_names, free_self=(blanket.group(1), blanket.group(2)))
+                    impl_stack.pop()
+                elif dups and mt:
                     impl_stack.append((hdr_text, False))
                     A.add(f"impl{mt.group(1) or ''} {mt.group(3)} {{   // vacuity twins of the trait-impl methods above")
                     for dk, dbuf in dups:
@@ -695,6 +759,25 @@ def classify(A, res):
             continue
         spans = d.get("spans", [])
         if "resource limit" in msg or "rlimit" in msg:
+            # a vacuity twin (`..__vac`, contract + `ensures false`) that runs out of resources did NOT prove false: that is the required
+            # outcome for a twin (non-vacuous as far as the budget reaches), not an undecided obligation
+            prim = [sp for sp in spans if sp.get("is_primary")] or spans
+            twin = None
+            for sp in prim:
+                ln = sp["line_start"]
+                head = " ".join(A.lines[ln - 1:ln + 2]) if 0 < ln <= len(A.lines) else ""
+                mt_ = re.search(r"\bfn\s+(\w+__vac)\b", head)
+                if mt_:
+                    twin = (mt_.group(1), ln); break
+            if twin:
+                nm, ln = twin
+                if ln >= A.theorem_start:
+                    theorem_fail.setdefault(nm, []).append("rlimit (twin did not prove false)")
+                else:
+                    k = fn_of_line(ln)
+                    if k:
+                        failed_clauses.setdefault((k[:-5] if k.endswith("__vac") else k, "__vacuity"), []).append("rlimit (twin did not prove false)")
+                continue
             rlimit.append(d.get("rendered", msg)); continue
         verification_msgs = ("postcondition not satisfied", "precondition not satisfied", "assertion failed",
                              "possible arithmetic underflow/overflow", "possible division by zero", "invariant not satisfied",
@@ -781,7 +864,7 @@ def scan_assumptions(A):
     for m in pat.finditer(rest):
         ln = text[:a].count("\n") + rest[:m.start()].count("\n") + 1
         eol = rest.find("\n", m.start())
-        if "/*R12*/" in rest[m.start():eol] or "/*REFUSED" in rest[m.start():eol] or "/*DECLARED" in rest[m.start():eol]:
+        if "/*R12*/" in rest[m.start():eol] or "/*R10:" in rest[m.start():eol] or "/*REFUSED" in rest[m.start():eol] or "/*DECLARED" in rest[m.start():eol]:
             continue   # generated field-wise Clone impls (rule R12) / refused bodies / `assume_external` of a contract file: reported separately
         found.append((ln, m.group(1)))
     return pre, found
